@@ -5,7 +5,8 @@
    `rs` is the list of CYS-class residues in the order of Biomolecule.residues
    (ANY order: the theorems quantify over all lists).  *)
 From Coq Require Import List ZArith Bool Permutation String.
-From PV Require Import Model.SSBridge Proofs.SSBridge.
+From PV Require Import Model.SSBridge Proofs.SSBridge Model.Pipeline Proofs.SSOrder.
+From PV Require Generated.Stages.
 Import ListNotations.
 
 (* Two cysteines whose sulfurs are within the limit of each other and of no
@@ -132,6 +133,40 @@ Example C13_nonvacuous :
     ["2::0:-:0:1:CYS"; "0:1:1:1:1:0:CYX"; "3::0:-:0:1:CYS"; "1:0:1:0:1:0:CYX"]%string.
 Proof. vm_compute. repeat split; reflexivity. Qed.
 
+(* Pipeline level: the property speaks of the sulfurs of the RETURNED model.  For every stage list that meets
+   the order obligation (the detection is not controlled by args.debump; behind it no second detection and no
+   heavy-atom mover other than one controlled by args.debump) and every semantics of the stages respecting the
+   three frame conditions, the flags of the state returned with --nodebump are detect(its final sulfurs) - so
+   the theorems above apply to the returned model, including cysteines whose sulfur was rebuilt by
+   repair_heavy.  PARTIAL: the frame conditions are modelled (tied at run time by the rebuilt-sulfur stage
+   of the harness); with debumping on, the returned sulfurs may differ from those the detection saw. *)
+Theorem C13_detection_sees_final_sulfurs :
+  forall (state S F : Type) (sulfurs : state -> S) (flags : state -> F) (detect : S -> F)
+         (sem : sdesc -> state -> state),
+    (forall d s, is_ss d = true -> flags (sem d s) = detect (sulfurs s) /\ sulfurs (sem d s) = sulfurs s) ->
+    (forall d s, is_ss d = false -> flags (sem d s) = flags s) ->
+    (forall d s, mover d = false -> sulfurs (sem d s) = sulfurs s) ->
+    forall ds s, order_ok ds = true ->
+      flags (run state sem ds s) = detect (sulfurs (run state sem ds s)).
+Proof. exact detection_sees_final_sulfurs. Qed.
+
+(* the stage table translated from the current pdb2pqr/main.py meets the obligation (and has the stages it
+   speaks about) *)
+Theorem C13_ss_stage_order_table :
+  ss_order_obligation PV.Generated.Stages.stages = true.
+Proof. vm_compute. reflexivity. Qed.
+
+(* the obligation is needed: detection before repair_heavy, under a semantics meeting the frame conditions,
+   returns flags that are not those of the returned sulfurs *)
+Theorem C13_detection_before_repair_is_wrong :
+  let ds := [w_stage "update_ss_bridges"; w_stage "repair_heavy"] in
+  order_ok ds = false /\
+  (forall d s, is_ss d = true -> snd (w_sem d s) = fst s /\ fst (w_sem d s) = fst s) /\
+  (forall d s, is_ss d = false -> snd (w_sem d s) = snd s) /\
+  (forall d s, mover d = false -> fst (w_sem d s) = fst s) /\
+  snd (run w_state w_sem ds (0, 0)) <> fst (run w_state w_sem ds (0, 0)).
+Proof. exact detection_before_repair_is_wrong. Qed.
+
 Print Assumptions C13_ss_pair_symmetric.
 Print Assumptions C13_ss_isolated_free.
 Print Assumptions C13_ss_perm_invariant.
@@ -142,3 +177,6 @@ Print Assumptions C13_ss_third_sulfur_order_dependent.
 Print Assumptions C13_ss_third_sulfur_not_mutual.
 Print Assumptions C13_ss_free_unbuildable_named_CYX.
 Print Assumptions C13_nonvacuous.
+Print Assumptions C13_detection_sees_final_sulfurs.
+Print Assumptions C13_ss_stage_order_table.
+Print Assumptions C13_detection_before_repair_is_wrong.
